@@ -8,6 +8,7 @@ effect on the line list is proved here; the commands are compositions of them.
 import KlogV.Lemmas.Edits
 import KlogV.Lemmas.CommandEdits
 import KlogV.Props.C08
+import KlogV.Props.Rx.Reconciler
 namespace KlogV.C03
 
 /-- Splicing: every line before the insertion point survives byte-for-byte (text and ending) —
